@@ -31,6 +31,32 @@ transition and no subtree.
 Long streams (deviation-bounded mode): a periodic stream of 36 / 48 updates
 that stays inside the warning band, with every replacement of <= 1 / 2 calls.
 
+Families added in round 3b (further configurations, same oracle; labels
+``MD3|<id>|fam-<family>|...``):
+
+  cols      9 column-label schemes: target column first / in the middle / last,
+            string labels, integer labels 0..2 (dict-built and ndarray-built
+            frames, the latter all-float), the empty string as target label
+  perm      give_oracle_label samples listing their columns in each of the 6
+            orders (legal: columns are identified by label), first and later
+            samples of a round, on 4 schemes
+  idx       reference batch / one-row sample frames that are slices of a
+            longer frame (row labels 50.., 1000..) instead of fresh frames
+  sens0     sensitivity 0
+  zref      reference batches whose k folds all have the SAME non-dyadic margin
+            density and / or accuracy (1/3, 2/3, 1/5, 4/5): spread exactly 0
+  flat0     the same, generated systematically for a classifier whose fit()
+            learns nothing: a in-margin and c correct rows in every fold
+  flatL     ... with oracle length = reference length, scripted two-round
+            histories (deviation-bounded) whose adopted references are
+            zero-spread again
+  defaults  MD3(clf, margin_calculation_function=f): default sensitivity,
+            k = 10, oracle length = len(reference) on a 30-row batch
+
+Stronger oracle (round 3b): after every accepted call ``oracle_data``, read by
+column LABEL, must hold exactly the labelled samples handed over so far in this
+round (values as floats; dtypes and the buffer's own column order are free).
+
 oracle_data_length_required < k: the labelled samples cannot be summarised over
 k folds, so the property cannot be met once L labels have arrived; the check
 accepts only an up-front refusal of the configuration (ValueError from the
@@ -38,11 +64,13 @@ constructor or set_reference) and otherwise reports
 sig=C19-MD3-oracle-length-below-k at the L-th label (genuine defect on the
 pinned tree, see /verif/fixes/C19-oracle-length-below-k.*).
 """
+import itertools
 from fractions import Fraction
 
 import numpy as np
 import pandas as pd
 from sklearn.base import BaseEstimator, ClassifierMixin
+from sklearn.model_selection import KFold
 
 from menelaus.concept_drift import MD3
 
@@ -84,6 +112,29 @@ class ThresholdClassifier(ClassifierMixin, BaseEstimator):
         )
 
 
+class FixedClassifier(ClassifierMixin, BaseEstimator):
+    """A rule that learns nothing: fit is a no-op, predict compares feature 0
+    with the constructor's threshold (kept by sklearn.clone).  With it the margin
+    signal and the correctness of a row do not depend on the fold it is tested
+    in, so reference batches with prescribed per-fold statistics can be written
+    down directly (families flat0 / flatL / defaults)."""
+
+    def __init__(self, thr=3.0, margin=0.5):
+        self.thr = thr
+        self.margin = margin
+
+    def fit(self, X, y):
+        self.thr_ = Fraction(self.thr)
+        self.classes_ = np.array([0, 1])
+        return self
+
+    def predict(self, X):
+        X = np.asarray(X, dtype=float)
+        return np.array(
+            [predict_one(Fraction(v), self.thr_) for v in X[:, 0].tolist()], dtype=int
+        )
+
+
 def margin_function(detector, sample, clf):
     """User margin function: 1 iff |x0 - thr| <= m."""
     return in_margin(Fraction(float(sample[0])), clf.thr_, Fraction(clf.margin))
@@ -115,6 +166,42 @@ REFS = {
         "rows": [(0.0, 0), (0.75, 0), (2.25, 0), (3.0, 1), (3.5, 0), (3.75, 1), (5.25, 1), (5.5, 1)],
     },
 }
+
+# Zero-spread reference batches for the *learning* classifier (offline search, verified in
+# _new_model): for the stated k every fold has the same, non-dyadic margin density and / or
+# accuracy, so the standard deviation over folds is exactly 0 ("flat").  With a spread of 0
+# every deviation of the running margin density must warn and every accuracy drop must be a
+# drift; a one-pass sum / sum-of-squares spread is NaN or ~1e-9 here.
+ZREFS = {
+    "Z6": {  # md 1/3 (flat), acc 2/3 (flat)
+        "margin": 0.5, "k": 2, "flat": ("md", "acc"),
+        "rows": [(1.25, 0), (0.75, 0), (2.75, 0), (3.75, 1), (1.75, 0), (3.0, 1)],
+    },
+    "Z6m": {  # md 1/3 (flat), acc 5/6 +- 1/6
+        "margin": 0.5, "k": 2, "flat": ("md",),
+        "rows": [(3.0, 1), (2.25, 0), (0.0, 0), (2.75, 1), (3.25, 1), (1.25, 0)],
+    },
+    "Z6a": {  # md 1/2 +- 1/6, acc 2/3 (flat)
+        "margin": 0.5, "k": 2, "flat": ("acc",),
+        "rows": [(2.5, 1), (5.0, 1), (4.5, 1), (3.0, 0), (3.25, 1), (3.25, 0)],
+    },
+    "Z9": {  # md 1/3 (flat), acc 2/3 (flat), three folds
+        "margin": 0.5, "k": 3, "flat": ("md", "acc"),
+        "rows": [(2.5, 0), (1.5, 0), (0.25, 0), (0.25, 1), (2.0, 0), (4.0, 1), (2.5, 0), (6.0, 1), (2.0, 1)],
+    },
+    "Z10": {  # md 1/5 (flat), acc 4/5 (flat), folds of five
+        "margin": 0.5, "k": 2, "flat": ("md", "acc"),
+        "rows": [(4.25, 1), (2.0, 0), (5.25, 1), (0.75, 0), (5.75, 1), (2.25, 0), (3.25, 0), (1.0, 1),
+                 (2.75, 0), (2.0, 0)],
+    },
+    "Z15": {  # md 1/5 (flat), acc 4/5 (flat), three folds of five
+        "margin": 1.0, "k": 3, "flat": ("md", "acc"),
+        "rows": [(5.5, 0), (2.0, 0), (5.0, 1), (3.0, 0), (5.25, 1), (3.0, 0), (5.25, 1), (5.25, 0), (1.0, 0),
+                 (0.5, 0), (5.25, 1), (0.75, 0), (2.0, 0), (1.25, 0), (3.25, 1)],
+    },
+}
+REFS.update(ZREFS)
+
 X_IN = 3.25  # inside the margin of the user's classifier for m = 0.5 and m = 1
 X_OUT = 6.0  # outside
 # feature 0 of the i-th labelled sample of oracle round r: LAB_X[(i + 3 r) mod 8]
@@ -145,15 +232,82 @@ EVKIND = {
     "lab_2rows": "label_2rows",
 }
 
+# ---------------------------------------------------------------------------
+# column-label schemes (family "cols"): the three roles x (feature 0), z (feature 1),
+# y (target) under different labels and frame orders.  The base scheme is the one all
+# other families use.  "new" / "extra" label the renamed target / the surplus column of the
+# illegal label events; "np": the frames are built from one float ndarray (integer labels
+# are what pandas gives such a frame), otherwise from a dict (x, z float64, y int64).
+# ---------------------------------------------------------------------------
+_STR = {"x": "x", "z": "z", "y": "y"}
+SCHEMES = {
+    "xzy": {"order": ["x", "z", "y"], "lab": _STR, "new": "target", "extra": "w", "np": False},
+    "yxz": {"order": ["y", "x", "z"], "lab": _STR, "new": "target", "extra": "w", "np": False},
+    "xyz": {"order": ["x", "y", "z"], "lab": _STR, "new": "target", "extra": "w", "np": False},
+    "int-t0": {"order": ["y", "x", "z"], "lab": {"y": 0, "x": 1, "z": 2}, "new": 7, "extra": 9, "np": False},
+    "int-t1": {"order": ["x", "y", "z"], "lab": {"x": 0, "y": 1, "z": 2}, "new": 7, "extra": 9, "np": False},
+    "int-t2": {"order": ["x", "z", "y"], "lab": {"x": 0, "z": 1, "y": 2}, "new": 7, "extra": 9, "np": False},
+    "np-t0": {"order": ["y", "x", "z"], "lab": {"y": 0, "x": 1, "z": 2}, "new": 7, "extra": 9, "np": True},
+    "np-t2": {"order": ["x", "z", "y"], "lab": {"x": 0, "z": 1, "y": 2}, "new": 7, "extra": 9, "np": True},
+    "empty-last": {"order": ["x", "z", "y"], "lab": {"x": "x", "z": "z", "y": ""}, "new": "target", "extra": "w",
+                   "np": False},
+    "empty-first": {"order": ["y", "x", "z"], "lab": {"x": "x", "z": "z", "y": ""}, "new": "target", "extra": "w",
+                    "np": False},
+}
+BASE_SCHEME = "xzy"
+PERMS = list(itertools.permutations(range(3)))  # PERMS[0] is the identity
 
-def _ref_frame(rows):
-    return pd.DataFrame(
-        {
-            "x": [float(x) for x, _ in rows],
-            "z": [float(i % 2) for i in range(len(rows))],
-            "y": [int(y) for _, y in rows],
-        }
-    )
+
+def _scheme(cfg):
+    return SCHEMES[cfg.get("cols", BASE_SCHEME)]
+
+
+def _label_of(sch, role):
+    if role == "t":
+        return sch["new"]
+    if role == "w":
+        return sch["extra"]
+    return sch["lab"][role]
+
+
+def _columns(cfg):
+    """labels of the reference's feature columns (frame order) + target label"""
+    sch = _scheme(cfg)
+    return [sch["lab"][r] for r in sch["order"] if r != "y"] + [sch["lab"]["y"]]
+
+
+def _frame(cfg, data, order):
+    """DataFrame with the columns ``order`` (roles), labelled per the configuration's scheme."""
+    sch = _scheme(cfg)
+    labels = [_label_of(sch, r) for r in order]
+    if sch["np"]:
+        arr = np.column_stack([np.asarray(data[r], dtype=float) for r in order])
+        if labels == list(range(len(labels))):
+            return pd.DataFrame(arr)  # RangeIndex columns, as from a bare ndarray
+        return pd.DataFrame(arr, columns=labels)
+    return pd.DataFrame({lab: data[r] for r, lab in zip(order, labels)}, columns=labels)
+
+
+def _ref_spec(cfg):
+    """-> (rows, margin) of the configuration's reference batch"""
+    if "rows" in cfg:
+        return [tuple(r) for r in cfg["rows"]], cfg["margin"]
+    ref = REFS[cfg["ref"]]
+    return ref["rows"], ref["margin"]
+
+
+def _ref_frame(cfg):
+    rows, _ = _ref_spec(cfg)
+    data = {
+        "x": [float(x) for x, _ in rows],
+        "z": [float(i % 2) for i in range(len(rows))],
+        "y": [int(y) for _, y in rows],
+    }
+    df = _frame(cfg, data, _scheme(cfg)["order"])
+    if cfg.get("index") == "stream":
+        # the batch is a slice of a longer frame: row labels 50, 51, ...
+        df.index = range(50, 50 + len(df))
+    return df
 
 
 def _frame_hash(det):
@@ -190,45 +344,93 @@ def _observe(det, exc):
     }
 
 
-def _labelled(model, ok):
+def _labelled(cfg, model, ok):
     i = len(model.labels)
-    x = LAB_X[(i + 3 * model.rounds) % len(LAB_X)]
+    if "lab_x" in cfg:
+        # scripted families: feature 0 is a function of the position inside the round only
+        x = cfg["lab_x"][i % len(cfg["lab_x"])]
+    else:
+        x = LAB_X[(i + 3 * model.rounds) % len(LAB_X)]
     pred = predict_one(x, USER_THR)
     return x, (pred if ok else 1 - pred)
 
 
-def _event(model, ev):
-    """-> (method name, column -> values of the frame passed, model call)"""
-    cols = FEATURES + [TARGET]
-    if ev == "upd_in":
-        return "update", {"x": [X_IN], "z": [1.0]}, lambda mm, D: mm.update(1, X_IN, D)
-    if ev == "upd_out":
-        return "update", {"x": [X_OUT], "z": [0.0]}, lambda mm, D: mm.update(1, X_OUT, D)
-    if ev == "upd_2rows":
-        return "update", {"x": [X_IN, X_OUT], "z": [1.0, 0.0]}, lambda mm, D: mm.update(2, X_IN, D)
-    if ev in ("lab_ok", "lab_bad"):
-        x, y = _labelled(model, ev == "lab_ok")
-        data = {"x": [x], "z": [float(len(model.labels) % 2)], "y": [y]}
-        return "give_oracle_label", data, lambda mm, D: mm.label(1, cols, x, y, D)
-    x, y = _labelled(model, True)
-    if ev == "lab_cols_renamed":
-        data = {"x": [x], "z": [0.0], "target": [y]}
-        return "give_oracle_label", data, lambda mm, D: mm.label(1, ["x", "z", "target"], x, y, D)
-    if ev == "lab_cols_extra":
-        data = {"x": [x], "z": [0.0], "y": [y], "w": [1.0]}
-        return "give_oracle_label", data, lambda mm, D: mm.label(1, cols + ["w"], x, y, D)
-    if ev == "lab_2rows":
-        data = {"x": [x, x], "z": [0.0, 1.0], "y": [y, y]}
-        return "give_oracle_label", data, lambda mm, D: mm.label(2, cols, x, y, D)
+def _split_event(ev):
+    base, _, p = ev.partition(":")
+    return base, (int(p) if p else 0)
+
+
+def _event(cfg, model, ev):
+    """-> (method name, frame passed, model call, row by role or None)
+
+    Family "idx": the frames are one-row slices of a longer stream, so their row label is not 0 but
+    the sample's running number (a function of the model state, so that equal states still merge)."""
+    meth, frame, mcall, row = _event0(cfg, model, ev)
+    if cfg.get("index") == "stream":
+        first = 1000 + 10 * model.total + len(model.labels)
+        frame.index = range(first, first + len(frame))
+    return meth, frame, mcall, row
+
+
+def _event0(cfg, model, ev):
+    """-> (method name, frame passed, model call, row by role or None)
+
+    ``lab_ok:p`` / ``lab_bad:p`` list the sample's columns in the p-th permutation of the
+    reference frame's column order (p = 0 and the bare name: the reference's order)."""
+    base, p = _split_event(ev)
+    sch = _scheme(cfg)
+    forder = [r for r in sch["order"] if r != "y"]
+    cols = _columns(cfg)
+    if base == "upd_in":
+        return "update", _frame(cfg, {"x": [X_IN], "z": [1.0]}, forder), lambda mm, D: mm.update(1, X_IN, D), None
+    if base == "upd_out":
+        return "update", _frame(cfg, {"x": [X_OUT], "z": [0.0]}, forder), lambda mm, D: mm.update(1, X_OUT, D), None
+    if base == "upd_2rows":
+        data = {"x": [X_IN, X_OUT], "z": [1.0, 0.0]}
+        return "update", _frame(cfg, data, forder), lambda mm, D: mm.update(2, X_IN, D), None
+    if base in ("lab_ok", "lab_bad"):
+        x, y = _labelled(cfg, model, base == "lab_ok")
+        z = float(len(model.labels) % 2)
+        order = [sch["order"][j] for j in PERMS[p]]
+        frame = _frame(cfg, {"x": [x], "z": [z], "y": [y]}, order)
+        return "give_oracle_label", frame, lambda mm, D: mm.label(1, cols, x, y, D), {"x": x, "z": z, "y": y}
+    x, y = _labelled(cfg, model, True)
+    if base == "lab_cols_renamed":
+        order = ["t" if r == "y" else r for r in sch["order"]]
+        frame = _frame(cfg, {"x": [x], "z": [0.0], "t": [y]}, order)
+        renamed = [sch["new"] if c == sch["lab"]["y"] else c for c in cols]
+        return "give_oracle_label", frame, lambda mm, D: mm.label(1, renamed, x, y, D), None
+    if base == "lab_cols_extra":
+        frame = _frame(cfg, {"x": [x], "z": [0.0], "y": [y], "w": [1.0]}, sch["order"] + ["w"])
+        return "give_oracle_label", frame, lambda mm, D: mm.label(1, cols + [sch["extra"]], x, y, D), None
+    if base == "lab_2rows":
+        frame = _frame(cfg, {"x": [x, x], "z": [0.0, 1.0], "y": [y, y]}, sch["order"])
+        return "give_oracle_label", frame, lambda mm, D: mm.label(2, cols, x, y, D), None
     raise KeyError(ev)
 
 
+def _nondyadic(q):
+    return isinstance(q, Fraction) and (q.denominator & (q.denominator - 1)) != 0
+
+
 def _new_model(cfg):
-    ref = REFS[cfg["ref"]]
+    rows, margin = _ref_spec(cfg)
     model = MD3Model(
-        ref["rows"], FEATURES + [TARGET], cfg["sens"], cfg["k"], cfg["L"], USER_THR, ref["margin"]
+        rows, _columns(cfg), cfg["sens"], cfg["k"], cfg["L"], USER_THR, margin,
+        refit=cfg.get("clf", "learn") == "learn",
     )
-    assert model.stats["md_std"] != 0 and model.stats["acc_std"] != 0, cfg
+    st = model.stats
+    ref = cfg.get("ref")
+    if ref in ZREFS:
+        assert cfg["k"] == ZREFS[ref]["k"], cfg
+        for key in ZREFS[ref]["flat"]:
+            assert st[key + "_std"] == 0 and _nondyadic(st[key]), (cfg, key)
+    elif ref is not None:
+        assert st["md_std"] != 0 and st["acc_std"] != 0, cfg
+    if "expect" in cfg:
+        # generated reference batches: the statistics they were built to have
+        for key, val in cfg["expect"].items():
+            assert st[key] == Fraction(*val), (cfg, key, st[key])
     return model
 
 
@@ -237,26 +439,33 @@ class MD3System(System):
 
     # -- construction ---------------------------------------------------------
     def init(self, cfg):
-        ref = REFS[cfg["ref"]]
-        rows = ref["rows"]
+        rows, margin = _ref_spec(cfg)
         k, L, sens = cfg["k"], cfg["L"], cfg["sens"]
-        clf = ThresholdClassifier(margin=ref["margin"]).fit(
-            np.array([[x, 0.0] for x in TRAIN_X]), np.array(TRAIN_Y)
-        )
+        if cfg.get("clf", "learn") == "learn":
+            clf = ThresholdClassifier(margin=margin).fit(
+                np.array([[x, 0.0] for x in TRAIN_X]), np.array(TRAIN_Y)
+            )
+        else:
+            clf = FixedClassifier(thr=float(USER_THR), margin=margin).fit(None, None)
         assert clf.thr_ == USER_THR
-        assert in_margin(X_IN, USER_THR, ref["margin"]) == 1
-        assert in_margin(X_OUT, USER_THR, ref["margin"]) == 0
+        assert in_margin(X_IN, USER_THR, margin) == 1
+        assert in_margin(X_OUT, USER_THR, margin) == 0
         model = _new_model(cfg)
         undefined = L is not None and L < k
         try:
-            det = MD3(
-                clf,
-                margin_calculation_function=margin_function,
-                sensitivity=sens,
-                k=k,
-                oracle_data_length_required=L,
-            )
-            det.set_reference(_ref_frame(rows), target_name=TARGET)
+            if cfg.get("defaults"):
+                # family "defaults": sensitivity, k and oracle_data_length_required are NOT passed
+                assert (sens, k, L) == (2, 10, None), cfg
+                det = MD3(clf, margin_calculation_function=margin_function)
+            else:
+                det = MD3(
+                    clf,
+                    margin_calculation_function=margin_function,
+                    sensitivity=sens,
+                    k=k,
+                    oracle_data_length_required=L,
+                )
+            det.set_reference(_ref_frame(cfg), target_name=_scheme(cfg)["lab"]["y"])
         except ValueError as e:
             if undefined:
                 # k-fold statistics of L < k labelled samples do not exist: refusing the
@@ -265,14 +474,14 @@ class MD3System(System):
             return {"init_error": "%s: %s" % (type(e).__name__, str(e)[:200])}
         except Exception as e:  # noqa: BLE001 - becomes a Violation at the first step
             return {"init_error": "%s: %s" % (type(e).__name__, str(e)[:200])}
-        return {"det": det, "model": model, "fh": _frame_hash(det)}
+        return {"det": det, "model": model, "fh": _frame_hash(det), "rows": []}
 
     def alphabet(self, cfg, state, pos):
         if "config_refused" in state:
             return ["noop"]
         if "init_error" in state:
             return ["upd_in"]
-        return EVENTS
+        return ALPHABETS[cfg.get("alphabet", "base")]
 
     def key(self, cfg, state, pos):
         if "det" not in state:
@@ -281,13 +490,49 @@ class MD3System(System):
         # recomputed after every call
         return (tuple(sorted(state["fh"].items())), state["model"].canon())
 
+    # -- collected labelled samples ---------------------------------------------
+    @staticmethod
+    def _check_oracle_data(cfg, det, rows, ev, ctx):
+        """The labelled samples collected so far (``oracle_data``), read by column NAME, are the
+        samples handed over, in order — whatever column order each sample listed them in."""
+        od = getattr(det, "oracle_data", None)
+        if not rows:
+            if od is not None and len(od):
+                raise Violation(
+                    "MD3-oracle-data",
+                    "no labelled sample is pending after %s but oracle_data holds %d row(s)" % (ev, len(od)),
+                    expected=[],
+                    observed=int(len(od)),
+                )
+            return
+        if not isinstance(od, pd.DataFrame):
+            ctx.count("oracle_data_not_a_frame")
+            return
+        sch = _scheme(cfg)
+        try:
+            got = [
+                {r: float(od[sch["lab"][r]].iloc[i]) for r in ("x", "z", "y")} for i in range(len(od))
+            ]
+        except Exception as e:  # noqa: BLE001
+            got = "%s: %s" % (type(e).__name__, str(e)[:120])
+        want = [{r: float(v) for r, v in row.items()} for row in rows]
+        if got != want:
+            raise Violation(
+                "MD3-oracle-data",
+                "after %s the collected labelled samples, read by column name, are not the samples handed to "
+                "give_oracle_label" % ev,
+                expected=want,
+                observed=got,
+            )
+        ctx.count("oracle_data_checked_by_name")
+
     # -- one event ---------------------------------------------------------------
     def step(self, cfg, state, ev, pos, ctx):
         if "init_error" in state:
             raise Violation(
                 "MD3-construction",
                 "MD3(...) / set_reference raised on a valid configuration %r: %s"
-                % ({k: cfg[k] for k in ("ref", "sens", "k", "L")}, state["init_error"]),
+                % ({k: cfg.get(k) for k in ("ref", "cols", "sens", "k", "L")}, state["init_error"]),
                 expected="detector constructed",
                 observed=state["init_error"],
             )
@@ -296,10 +541,12 @@ class MD3System(System):
             ctx.terminal = True
             return {"config_refused": state["config_refused"]}
         det = state["det"]
-        meth, data, mcall = _event(state["model"], ev)
-        df = pd.DataFrame(data)
+        base, perm = _split_event(ev)
+        meth, df, mcall, row = _event(cfg, state["model"], ev)
         was_waiting = state["model"].waiting
         was_drift = state["model"].state == "drift"
+        old = state["model"].stats
+        n_before = len(state["model"].labels)
         before = state["fh"]
         rng.seed_step(ctx.seed, cfg["id"], pos)
         exc = None
@@ -342,6 +589,10 @@ class MD3System(System):
                 observed=obs,
             )
         last = model.last
+        fam = cfg.get("family", "base")
+        ctx.count("family:" + fam)
+        if "cols" in cfg:
+            ctx.count("cols:" + cfg["cols"])
         if exp["exc"] is not None:
             # refused: nothing may change
             changed = sorted(k for k in set(before) | set(after) if before.get(k) != after.get(k))
@@ -353,17 +604,31 @@ class MD3System(System):
                     expected="no attribute changes",
                     observed=changed,
                 )
-            ctx.mark("refused_%s_%s" % (EVKIND[ev], "waiting" if was_waiting else "idle"))
+            ctx.mark("refused_%s_%s" % (EVKIND[base], "waiting" if was_waiting else "idle"))
             if was_drift:
                 ctx.count("refused_while_drift_reported")
             return obs
 
         kind = last[0]
+        rows = state["rows"]
+        if kind == "label":
+            rows.append(row)
+        elif kind in ("confirmed", "rejected"):
+            del rows[:]
+        self._check_oracle_data(cfg, det, rows, ev, ctx)
+
+        if kind in ("label", "confirmed", "rejected") and perm != 0:
+            ctx.mark("label_columns_permuted_first_of_round" if n_before == 0
+                     else "label_columns_permuted_later_in_round")
         if kind == "warning":
             ctx.mark("warnings")
             ctx.count("warning_%s_side" % last[1])
             if last[2] >= 1:
                 ctx.mark("warning_after_reference_replacement")
+            if old["md_std"] == 0:
+                ctx.count("warning_on_zero_md_spread")
+                if _nondyadic(old["md"]):
+                    ctx.count("warning_on_zero_md_spread_nondyadic")
         elif kind in ("confirmed", "rejected"):
             ctx.mark("confirmed_drifts" if kind == "confirmed" else "rejected_confirmations")
             if last[1]:
@@ -374,6 +639,16 @@ class MD3System(System):
                 ctx.mark("histories_with_2_oracle_rounds")
             if last[2] >= 3:
                 ctx.count("histories_with_3_oracle_rounds")
+            if old["acc_std"] == 0 and _nondyadic(old["acc"]):
+                ctx.count("drift_on_zero_acc_spread_nondyadic" if kind == "confirmed"
+                          else "no_drift_on_zero_acc_spread_nondyadic")
+            new = model.stats
+            if new["md_std"] == 0 and _nondyadic(new["md"]):
+                ctx.count("adopted_zero_md_spread_nondyadic")
+            if new["acc_std"] == 0 and _nondyadic(new["acc"]):
+                ctx.count("adopted_zero_acc_spread_nondyadic")
+            if cfg.get("defaults"):
+                ctx.count("confirmation_with_default_parameters")
         elif kind == "label":
             ctx.count("labels_collected_before_last")
         elif kind == "update":
@@ -389,11 +664,20 @@ SYSTEMS = {"MD3": MD3System()}
 
 DEPTH = {"quick": 8, "thorough": 11}
 
+# label events with every column order (family "perm"); the refused call shapes stay enabled
+PERM_EVENTS = (
+    ["upd_in", "upd_out"]
+    + ["lab_ok:%d" % p for p in range(len(PERMS))]
+    + ["lab_bad:%d" % p for p in range(len(PERMS))]
+    + ["upd_2rows", "lab_cols_renamed", "lab_2rows"]
+)
+ALPHABETS = {"base": EVENTS, "perm": PERM_EVENTS}
+
 
 def _cfgs():
     out = []
     i = 0
-    for r in sorted(REFS):
+    for r in ("R6", "R7", "R8"):
         for s in SENS:
             for L in ORACLE_LEN:
                 for k in FOLDS:
@@ -431,7 +715,7 @@ def _accepted_prefixes(cfg, p):
         for ev in ("upd_in", "upd_out", "lab_ok", "lab_bad"):
             m = copy.deepcopy(model)
             D = Decider()
-            exp = _event(m, ev)[2](m, D)
+            exp = _event(cfg, m, ev)[2](m, D)
             if UNDEFINED in exp or D.near:
                 clean = False
                 break
@@ -457,6 +741,188 @@ LONG_MENU = ["upd_in", "upd_out", "lab_ok", "lab_bad", "upd_2rows", "lab_cols_re
 def _long_default(ref, n):
     period = len(REFS[ref]["rows"])
     return ["upd_in" if (i % period) in LONG_IN[ref] else "upd_out" for i in range(n)]
+
+
+# ---------------------------------------------------------------------------
+# families added in round 3b
+# ---------------------------------------------------------------------------
+FAM_DEPTH = {
+    "cols": {"quick": 6, "thorough": 8},
+    "perm": {"quick": 6, "thorough": 8},
+    "idx": {"quick": 6, "thorough": 8},
+    "sens0": {"quick": 7, "thorough": 9},
+    "zref": {"quick": 7, "thorough": 9},
+}
+# (reference batch, sensitivity, oracle length, k)
+COLS_SETTINGS = [("R6", 0.5, 2, 2), ("R7", 2, 3, 3), ("R8", 0.5, 2, 2), ("R8", 2, 3, 3)]
+PERM_SCHEMES = ["xzy", "yxz", "int-t0", "np-t2"]
+PERM_FULL = ["xzy", "yxz"]  # all four settings; the other schemes: the two middle ones
+PERM_SETTINGS = [("R6", 0.5, 3, 2), ("R6", 2, 3, 3), ("R8", 0.5, 3, 2), ("R8", 2, 3, 3)]
+# (scheme, alphabet, reference batch, sensitivity, oracle length, k)
+IDX_SETTINGS = [
+    ("xzy", "base", "R6", 0.5, 2, 2),
+    ("xzy", "perm", "R8", 0.5, 3, 2),
+    ("yxz", "perm", "R6", 2, 3, 3),
+    ("np-t0", "base", "R8", 2, 3, 3),
+    ("int-t2", "base", "R7", 2, 3, 3),
+]
+ZREF_SETTINGS = {"Z6": [2, 3], "Z6m": [3], "Z6a": [3], "Z9": [3], "Z10": [2, 3], "Z15": [3]}  # oracle lengths
+FLAT_Q = {2: [3, 5], 3: [3, 5]}  # k -> fold sizes of the flat0 reference batches
+FLATL_SHAPES = [(2, 3), (3, 3)]  # (k, fold size): full star;  FLATL_EXTRA: two points each
+FLATL_EXTRA = [(2, 5), (5, 3)]
+FLAT_K = {"quick": 1, "thorough": 2}
+FLAT_K2_MAXLEN = 24
+FLAT_MENU = ["upd_in", "upd_out", "lab_ok", "lab_bad", "lab_2rows"]
+FIXED_MARGIN = 0.5
+
+
+def _folds(n, k):
+    return [list(map(int, t)) for _, t in KFold(n_splits=k, shuffle=True, random_state=42).split(np.zeros((n, 1)))]
+
+
+def _pattern(k, q, a, c):
+    """k*q rows for the fixed classifier (threshold 3, margin 1/2) whose f-th KFold test fold holds
+    exactly a[f] in-margin rows and c[f] correctly classified rows.  -> (rows, ok flags)"""
+    n = k * q
+    rows, oks = [None] * n, [None] * n
+    for f, test in enumerate(_folds(n, k)):
+        assert len(test) == q
+        for j, i in enumerate(test):
+            inm = j < a[f]
+            okc = ((j + f) % q) < c[f]  # a rotation of the fold: exactly c[f] rows, unaligned with the margin rows
+            side = i % 2
+            x = (3.25 if side else 2.75) if inm else (5.0 if side else 1.0)
+            pred = predict_one(x, USER_THR)
+            rows[i] = [x, pred if okc else 1 - pred]
+            oks[i] = okc
+    return rows, oks
+
+
+def _walk(cfg, plan):
+    """Event script from a plan, by walking the model: ("warn", ev) repeats ev until the model waits,
+    ("seq", [events]) and ("ev", event) are taken as they are."""
+    from mc.numeric import Decider
+
+    model = _new_model(cfg)
+    out = []
+
+    def do(ev):
+        _event(cfg, model, ev)[2](model, Decider())
+        out.append(ev)
+
+    for item in plan:
+        if item[0] == "warn":
+            n = 0
+            while not model.waiting and n < 60:
+                do(item[1])
+                n += 1
+        elif item[0] == "seq":
+            for ev in item[1]:
+                do(ev)
+        else:
+            do(item[1])
+    return out
+
+
+def _star(q):
+    """(a, c) pairs: every in-margin count with q-1 correct rows, every correct count with 1 in-margin row"""
+    pts = [(a, q - 1) for a in range(q + 1)] + [(1, c) for c in range(q + 1)]
+    return sorted(set(pts))
+
+
+def _family_cfgs(tier):
+    """-> list of (cfg, task fields) for the added families"""
+    out = []
+    nid = [100]
+
+    def cfg_(**kw):
+        kw["id"] = nid[0]
+        nid[0] += 1
+        return kw
+
+    # cols: every column-label scheme x four (reference batch, setting) pairs, base alphabet
+    for sch in SCHEMES:
+        if sch == BASE_SCHEME:
+            continue
+        for (r, s, L, k) in COLS_SETTINGS:
+            c = cfg_(family="cols", ref=r, sens=s, L=L, k=k, cols=sch)
+            out.append((c, {"depth": FAM_DEPTH["cols"][tier], "tag": "%s,%s,s%s,L%s,k%d" % (sch, r, s, L, k)}))
+    # perm: labelled samples in every column order
+    for sch in PERM_SCHEMES:
+        for (r, s, L, k) in PERM_SETTINGS if sch in PERM_FULL else PERM_SETTINGS[1:3]:
+            c = cfg_(family="perm", ref=r, sens=s, L=L, k=k, cols=sch, alphabet="perm")
+            out.append((c, {"depth": FAM_DEPTH["perm"][tier], "tag": "%s,%s,s%s,L%s,k%d" % (sch, r, s, L, k)}))
+    # idx: sample frames / reference batch with row labels other than 0.. (slices of a longer frame)
+    for (sch, alpha, r, s, L, k) in IDX_SETTINGS:
+        c = cfg_(family="idx", ref=r, sens=s, L=L, k=k, cols=sch, alphabet=alpha, index="stream")
+        out.append((c, {"depth": FAM_DEPTH["idx"][tier], "tag": "%s,%s,%s,s%s,L%s,k%d" % (sch, alpha, r, s, L, k)}))
+    # sens0: sensitivity 0 (every deviation warns, every accuracy drop is a drift)
+    for r in ("R6", "R7", "R8"):
+        for k in FOLDS:
+            c = cfg_(family="sens0", ref=r, sens=0, L=3, k=k)
+            out.append((c, {"depth": FAM_DEPTH["sens0"][tier], "tag": "%s,s0,L3,k%d" % (r, k)}))
+    # zref: zero-spread references, learning classifier
+    for r in sorted(ZREFS):
+        for L in ZREF_SETTINGS[r]:
+            for s in SENS:
+                k = ZREFS[r]["k"]
+                c = cfg_(family="zref", ref=r, sens=s, L=L, k=k)
+                out.append((c, {"depth": FAM_DEPTH["zref"][tier], "tag": "%s,s%s,L%d,k%d" % (r, s, L, k)}))
+    # flat0: fixed classifier, every fold of the initial reference has a in-margin and c correct rows
+    n = 0
+    for k in sorted(FLAT_Q):
+        for q in FLAT_Q[k]:
+            pts = [(a, c) for a in range(q + 1) for c in range(q + 1)] if q == 3 else _star(q)
+            for (a, c) in pts:
+                rows, _ = _pattern(k, q, [a] * k, [c] * k)
+                s = SENS[n % 2]
+                n += 1
+                cf = cfg_(
+                    family="flat0", clf="fixed", rows=rows, margin=FIXED_MARGIN, sens=s, L=k, k=k,
+                    expect={"md": [a, q], "md_std": [0, 1], "acc": [c, q], "acc_std": [0, 1]},
+                )
+                out.append((cf, {"depth": k + 3 + (1 if tier == "thorough" else 0),
+                                 "tag": "k%d,q%d,a%d,c%d,s%s" % (k, q, a, c, s)}))
+    # flatL: fixed classifier, oracle length = reference length = k*q; the labelled samples of a round
+    # follow a pattern with (a2, c2) per fold, so the ADOPTED references are zero-spread too
+    shapes = [(k, q, _star(q), 2) for (k, q) in FLATL_SHAPES] + [
+        (k, q, [(1, q - 1), (2, 2)][: 2 if k == 2 else 1], 2) for (k, q) in FLATL_EXTRA
+    ]
+    for (k, q, pts, nvar) in shapes:
+        for (a, c) in pts:
+            # labelled rounds: the reference's own layout (accuracy ties the reference), and one with
+            # another margin count and one more wrong (if none can be added: one fewer) row per fold
+            variants = [(a, c), ((a + 1) if a < q else (a - 1), (c - 1) if c >= 1 else (c + 1))]
+            for (a2, c2) in variants[:nvar]:
+                rows, _ = _pattern(k, q, [a] * k, [c] * k)
+                lrows, loks = _pattern(k, q, [a2] * k, [c2] * k)
+                cf = cfg_(
+                    family="flatL", clf="fixed", rows=rows, margin=FIXED_MARGIN, sens=2, L=None, k=k,
+                    lab_x=[r[0] for r in lrows],
+                    expect={"md": [a, q], "md_std": [0, 1], "acc": [c, q], "acc_std": [0, 1]},
+                )
+                labels = ["lab_ok" if o else "lab_bad" for o in loks]
+                w1 = "upd_in" if a < q else "upd_out"
+                w2 = "upd_in" if a2 < q else "upd_out"
+                plan = [("warn", w1), ("seq", labels), ("warn", w2), ("seq", labels), ("ev", "upd_out"), ("ev", "upd_in")]
+                out.append((cf, {"script": _walk(cf, plan), "tag": "k%d,q%d,a%d,c%d,to-a%d,c%d" % (k, q, a, c, a2, c2)}))
+    # defaults: MD3(clf, margin_calculation_function=f) — sensitivity 2, k 10, oracle length = len(reference);
+    # 30 rows, folds of 3
+    a10 = [1] * 9 + [2]
+    c10 = [3] * 8 + [2] * 2
+    rows, _ = _pattern(10, 3, a10, c10)
+    for name, nbad in (("drift", 11), ("nodrift", 9)):
+        # labelled round: same in-margin layout, nbad wrong labels (one per fold, then a second in fold 0 ...)
+        cl = [3 - (1 if f < nbad else 0) - (1 if f + 10 < nbad else 0) for f in range(10)]
+        lrows, loks = _pattern(10, 3, a10, cl)
+        cf = cfg_(
+            family="defaults", clf="fixed", rows=rows, margin=FIXED_MARGIN, sens=2, L=None, k=10, defaults=True,
+            lab_x=[r[0] for r in lrows], expect={"md": [11, 30], "acc": [28, 30]},
+        )
+        labels = ["lab_ok" if o else "lab_bad" for o in loks]
+        plan = [("warn", "upd_in"), ("seq", labels), ("warn", "upd_in"), ("ev", "lab_ok"), ("ev", "lab_bad")]
+        out.append((cf, {"script": _walk(cf, plan), "tag": name}))
+    return out
 
 
 def tasks(tier, seed):
@@ -507,6 +973,35 @@ def tasks(tier, seed):
                     "validate_every": 101,
                 }
             )
+    for cfg, f in _family_cfgs(tier):
+        label = "MD3|%d|fam-%s|%s" % (cfg["id"], cfg["family"], f["tag"])
+        if "script" in f:
+            out.append(
+                {
+                    "system": "MD3",
+                    "cfg": cfg,
+                    "mode": "dev",
+                    "default": f["script"],
+                    "menu": FLAT_MENU,
+                    # two replacements only for the shorter scripts (cost grows with length^2 per replacement)
+                    "k": FLAT_K[tier] if len(f["script"]) <= FLAT_K2_MAXLEN else 1,
+                    "label": label,
+                    "cost": len(f["script"]) ** 2,
+                    "validate_every": 53,
+                }
+            )
+        else:
+            out.append(
+                {
+                    "system": "MD3",
+                    "cfg": cfg,
+                    "prefix": [],
+                    "depth": f["depth"],
+                    "label": label,
+                    "cost": 2 ** f["depth"] * (2 if cfg.get("alphabet") == "perm" else 1),
+                    "validate_every": 101,
+                }
+            )
     return out
 
 
@@ -531,13 +1026,36 @@ REQUIRED = [
     "new_reference_md_std_positive",
     "exact_ties",
     "streams_of_30_updates_without_warning",
-]
+    # round 3b families (MD3 draws no random numbers: none of these depends on VERIF_SEED)
+    "family:cols",
+    "family:perm",
+    "family:idx",
+    "family:sens0",
+    "family:zref",
+    "family:flat0",
+    "family:flatL",
+    "family:defaults",
+    "label_columns_permuted_first_of_round",
+    "label_columns_permuted_later_in_round",
+    "oracle_data_checked_by_name",
+    "warning_on_zero_md_spread_nondyadic",
+    "drift_on_zero_acc_spread_nondyadic",
+    "no_drift_on_zero_acc_spread_nondyadic",
+    "adopted_zero_md_spread_nondyadic",
+    "adopted_zero_acc_spread_nondyadic",
+    "confirmation_with_default_parameters",
+] + ["cols:" + s for s in SCHEMES if s != BASE_SCHEME]
 
 TIME_BUDGET = {"quick": 600, "thorough": 3000}
 
 
 def describe(tier):
     d = DEPTH[tier]
+    fams = _family_cfgs(tier)
+    per_family = {}
+    for cfg, f in fams:
+        per_family[cfg["family"]] = per_family.get(cfg["family"], 0) + 1
+    scripts = [len(f["script"]) for cfg, f in fams if "script" in f]
     return {
         "rule": "reachable-state search: every sequence of length %d over the 8-event alphabet (4 legal, 4 illegal "
         "call shapes; all of them enabled in every state, no per-history bound on illegal events in either tier) "
@@ -547,7 +1065,22 @@ def describe(tier):
         "confirmation (drift or no drift), a refusal or an epoch restart. Long streams: per configuration with "
         "sensitivity 2 and oracle length 3 / None, a periodic default stream of %d updates that stays inside the "
         "warning band, and every history replacing <= %d of its calls by any of %d alternative calls "
-        "(deviation-bounded mode)" % (d, LONG_LEN[tier], LONG_K[tier], len(LONG_MENU)),
+        "(deviation-bounded mode). Added families (each a set of further configurations, same oracle): "
+        "cols = %d column-label schemes (target first / middle / last; string, integer, empty-string labels; "
+        "dict-built and ndarray-built frames) x 4 (reference batch, setting) pairs, all sequences of length %d; "
+        "perm = labelled samples listing their columns in each of the 6 orders (17-event alphabet), 4 schemes x 2-4 "
+        "(batch, setting) pairs, length %d; idx = reference batch and sample frames whose row labels do not start "
+        "at 0 (slices of a longer frame), 5 configurations over both alphabets, same length; sens0 = sensitivity 0, length %d; zref = 6 reference batches whose folds "
+        "all have the same non-dyadic margin density and / or accuracy (spread exactly 0) with the learning "
+        "classifier, length %d; flat0 = a classifier that learns nothing and generated reference batches with a "
+        "in-margin and c correct rows in every fold (k 2, 3; folds of 3: all (a, c); folds of 5: a star), oracle "
+        "length k, length k+%d; flatL = the same with oracle length = reference length = k x fold size and labelled "
+        "rounds that make the adopted references zero-spread as well, scripted two-round histories (length %d..%d) "
+        "with every replacement of <= %d calls (scripts longer than 24 calls: 1) by any of %d calls; defaults = MD3 constructed with its default "
+        "sensitivity / k = 10 / oracle length on a 30-row batch, scripted histories (56 calls) with <= 1 replacement"
+        % (d, LONG_LEN[tier], LONG_K[tier], len(LONG_MENU), len(SCHEMES) - 1, FAM_DEPTH["cols"][tier],
+           FAM_DEPTH["perm"][tier], FAM_DEPTH["sens0"][tier], FAM_DEPTH["zref"][tier],
+           3 + (1 if tier == "thorough" else 0), min(scripts), sorted(scripts)[-3], FLAT_K[tier], len(FLAT_MENU)),
         "bounds": {
             "depth": d,
             "events": EVENTS,
@@ -555,24 +1088,42 @@ def describe(tier):
             "sensitivity": SENS,
             "oracle_data_length_required": ORACLE_LEN,
             "k": FOLDS,
-            "configurations": len(_cfgs()),
+            "configurations": len(_cfgs()) + len(fams),
             "illegal_events_per_history": "unbounded (both tiers)",
             "long_stream": {"length": LONG_LEN[tier], "deviations": LONG_K[tier], "menu": LONG_MENU},
+            "family_configurations": per_family,
+            "family_depth": {k: v[tier] for k, v in FAM_DEPTH.items()},
+            "column_schemes": {
+                k: {"frame_order": [v["lab"][r] for r in v["order"]], "target": v["lab"]["y"],
+                    "built_from": "ndarray" if v["np"] else "dict"}
+                for k, v in SCHEMES.items()
+            },
+            "perm_events": PERM_EVENTS,
+            "scripted": {"deviations": FLAT_K[tier], "deviations_when_longer_than": [FLAT_K2_MAXLEN, 1],
+                         "menu": FLAT_MENU, "lengths": sorted(set(scripts))},
         },
         "explanation": "states = distinct canonical (detector, model) states reached; transitions = calls executed "
         "on the real object and compared with the model; executions = maximal paths of the merged graph. "
-        "each configuration is split into the sub-trees below its accepted call sequences of length %d "
+        "each base configuration is split into the sub-trees below its accepted call sequences of length %d "
         "(tree:* tasks, full remaining depth) plus, for every node above them, a depth-2 task executing all 8 events "
-        "there (node:* tasks)" % SPLIT[tier],
+        "there (node:* tasks); every added-family configuration is one task (fam-* labels)" % SPLIT[tier],
         "assumptions": [
             "the classifier is a deterministic threshold rule on feature 0 and the margin function is "
             "|x0 - thr| <= m, both computed in exact rationals on both sides; MD3 never refits the user's classifier",
+            "families flat0 / flatL / defaults use a classifier whose fit() learns nothing (threshold 3), so the "
+            "per-fold statistics of a batch can be prescribed; the model is told so (refit=False)",
             "fold assignment is sklearn KFold(k, shuffle=True, random_state=42) as documented in the code (trusted)",
             "standard deviation over folds is the population standard deviation (numpy default)",
             "drift_state after an accepted label that does not complete the round is None (pinned by "
             "test_md3::test_give_oracle_label); 2-row frames are refused per the method docstrings",
             "feature values of the i-th labelled sample are a fixed function of (i, oracle round); only the "
-            "label (correct / wrong) is enumerated",
+            "label (correct / wrong) and, in family perm, the column order are enumerated",
+            "columns are identified by label: a labelled sample with the reference's labels in any order is legal, "
+            "and oracle_data read by label must hold the samples handed over (values compared as floats, dtypes "
+            "and the buffer's own column order are not constrained)",
+            "column labels may be any hashable pandas label (strings incl. the empty string, integers as produced "
+            "by DataFrame(ndarray)); the docstring's 'string' is read as 'label'",
+            "update() frames list the feature columns in the reference's order (MD3 reads them by position)",
             "threshold comparisons within relative 1e-9 are numerically undecidable and follow the implementation; "
             "exact ties are enforced when all operands and the forgetting factor are dyadic",
             "oracle_data_length_required < k has no k-fold summary: accepted only if the configuration is refused "
